@@ -805,6 +805,10 @@ class Function(Ring):
         # STEP 2: call the function
         # print 'func=',func
         # print 'args=',args
+        if Fout is not None and setitem is None and is_set(Fout.setitem):
+            # re-evaluation of a recorded in-place write: save the contents
+            # that are overwritten now (not those of the recording run)
+            Fout.setitem = (Fout.setitem[0], operator.getitem(args[0], Fout.setitem[0]).copy())
         out  = func(*args, **Fkwargs)
 
         # STEP 3: create new Function instance for output
